@@ -16,6 +16,8 @@ pub struct P07 {
     pub max_reqs_per_gen: usize,
     /// malformed input is part of the alphabet (400 replies, server-side error paths)
     pub hostile_input: bool,
+    /// Expect / body / mixed pieces are part of the alphabet (server-generated interim replies)
+    pub all_pieces: bool,
     /// coverage: descriptor number -> last generation seen on it
     fd_owner: HashMap<i32, usize>,
     reuse_after_inflight_close: bool,
@@ -24,7 +26,7 @@ pub struct P07 {
 
 impl P07 {
     pub fn new(max_clients: usize, max_reqs_per_gen: usize) -> Self {
-        P07 { max_clients, max_reqs_per_gen, hostile_input: false, fd_owner: HashMap::new(), reuse_after_inflight_close: false, closed_with_inflight: Vec::new() }
+        P07 { max_clients, max_reqs_per_gen, hostile_input: false, all_pieces: false, fd_owner: HashMap::new(), reuse_after_inflight_close: false, closed_with_inflight: Vec::new() }
     }
     fn judge_all(&self, sim: &Sim) -> Option<(String, String)> {
         for g in &sim.gens {
@@ -86,6 +88,11 @@ impl HistoryProp for P07 {
                         v.push(Act::Send(c, Piece::Head));
                         if self.hostile_input && g.sends < 4 {
                             v.push(Act::Send(c, Piece::Bad));
+                        }
+                        if self.all_pieces && g.seq + 2 <= self.max_reqs_per_gen {
+                            v.push(Act::Send(c, Piece::GetExpect));
+                            v.push(Act::Send(c, Piece::Expect));
+                            v.push(Act::Send(c, Piece::Put));
                         }
                         if g.seq + 2 <= self.max_reqs_per_gen {
                             v.push(Act::Send(c, Piece::Two));
@@ -246,9 +253,12 @@ fn choose(rng: &mut Rng, sim: &Sim, en: &[Act]) -> Option<Act> {
 
 pub fn run(ctx: &mut Ctx) {
     let quick = ctx.quick();
-    let mut p = P07::new(if quick { 2 } else { 3 }, 2);
-    let depth = if quick { 7 } else { 9 };
-    hist::dfs(ctx, &mut p, depth, 3, "C07", 12);
+    let mut p = P07::new(2, 2);
+    hist::dfs(ctx, &mut p, if quick { 7 } else { 9 }, 3, "C07", 12);
+    if !quick {
+        let mut p = P07::new(3, 2);
+        hist::dfs(ctx, &mut p, 7, 3, "C07", 12);
+    }
     // random: more clients, longer histories, generations up to 2 per client
     let mut p = P07::new(4, 3);
     let n = ctx.budget(20_000, 1_200_000) / ctx.nshards;
@@ -257,6 +267,14 @@ pub fn run(ctx: &mut Ctx) {
     let mut p = P07::new(3, 3);
     p.hostile_input = true;
     hist::random_histories(ctx, &mut p, n, 20, 90, "C07", &mut choose);
+    // and with Expect / body / mixed pieces (100-continue replies interleaved with in-flight requests)
+    let mut p = P07::new(3, 4);
+    p.all_pieces = true;
+    p.hostile_input = true;
+    hist::random_histories(ctx, &mut p, n, 20, 90, "C07", &mut choose);
+    let mut p = P07::new(2, 2);
+    p.all_pieces = true;
+    hist::dfs(ctx, &mut p, if quick { 6 } else { 8 }, 3, "C07", 12);
     let mut p = P07::new(2, 2);
     p.hostile_input = true;
     hist::dfs(ctx, &mut p, if quick { 6 } else { 8 }, 3, "C07", 12);
@@ -290,5 +308,6 @@ pub fn run(ctx: &mut Ctx) {
 pub fn replay(ctx: &mut Ctx, case: &J) {
     let mut p = P07::new(4, 3);
     p.hostile_input = true;
+    p.all_pieces = true;
     hist::replay_history(ctx, &mut p, case, "C07");
 }
